@@ -12,7 +12,7 @@ NARGS = 3
 VALKEYS = ["s0", "s1", "num", "none", "k3", "k6", "lst", "dct", "df", "arr", "k3b", "true", "flt", "part",
            "part2", "arr6", "df6", "exc", "exc", "part3"]
 OVERRIDES = [None, None, None, "ovr/shared", "ovr/other", "ovr/k#1"]  # (a key may contain the character that separates key and version)
-META_KEYS = ["log", "k2"]
+META_KEYS = ["log", "k2", ""]  # (the empty key is a key like any other)
 
 
 def values():
